@@ -555,14 +555,21 @@ class BaseProject(object, metaclass=ABCMeta):
         # 3. Allocate ready tasks to free workers and facilities
         target_workplace_id_list = [wp.ID for wp in self.organization.workplace_list]
 
+        # components placed by this allocation pass (a component moves at most once per step)
+        moved_component_list = []
+
         for task in ready_and_working_task_list:
             if task.target_component is not None:
                 # 3-1. Set target component of workplace if target component is ready
                 component = task.target_component
                 # a component whose task has already been given resources in this step must stay where it is
-                if component.is_ready() and not any(
-                    len(t.allocated_worker_list) > 0
-                    for t in component.targeted_task_list
+                if (
+                    component.is_ready()
+                    and not any(component is c for c in moved_component_list)
+                    and not any(
+                        len(t.allocated_worker_list) > 0
+                        for t in component.targeted_task_list
+                    )
                 ):
                     candidate_workplace_list = task.allocated_workplace_list
                     candidate_workplace_list = sort_workplace_list(
@@ -611,6 +618,7 @@ class BaseProject(object, metaclass=ABCMeta):
                                 # 3-1-1-2. regsister
                                 component.set_placed_workplace(workplace)
                                 workplace.set_placed_component(component)
+                                moved_component_list.append(component)
                                 break
 
             if not task.auto_task:
